@@ -261,7 +261,27 @@ def main(argv=None):
         print(f"MACHINERY-ERROR [{a.pid}]: {ex}", file=sys.stderr)
         shutil.rmtree(ctx.scratch, ignore_errors=True)
         return 2
-    except Exception:
+    except Exception as ex:
+        # An exception that escapes from the code under test (a frame of the repository lies below the last harness frame)
+        # in a scenario the harness built is a verdict about the code: the sections that were not reached are not judged.
+        frames = traceback.extract_tb(ex.__traceback__)
+        repo = os.path.realpath(os.environ.get("VERIF_REPO", "/repo")) + os.sep
+        here = os.path.dirname(os.path.dirname(os.path.abspath(__file__))) + os.sep
+        last_h = max([i for i, f in enumerate(frames) if os.path.realpath(f.filename).startswith(here)] or [-1])
+        in_repo = [f for f in frames[last_h + 1 :] if os.path.realpath(f.filename).startswith(repo)]
+        if in_repo and last_h >= 0:
+            hf = frames[last_h]
+            try:
+                ctx.violation(
+                    f"raises/{hf.name}/{in_repo[-1].name}",
+                    f"the code under test raises {type(ex).__name__}: {str(ex)[:300]} (in {os.path.relpath(in_repo[-1].filename, repo)}:{in_repo[-1].lineno} {in_repo[-1].name}) "
+                    f"when driven by {os.path.basename(hf.filename)}:{hf.lineno} {hf.name}; the remaining sections of this check were not reached",
+                    {"traceback": traceback.format_exc()[-3000:]},
+                )
+                ctx.cov["sections"]["aborted"] = {"by": f"{type(ex).__name__} in {in_repo[-1].name}"}
+                return ctx.finish()
+            except Exception:
+                pass
         traceback.print_exc()
         print(f"MACHINERY-ERROR [{a.pid}]: unexpected exception in harness", file=sys.stderr)
         shutil.rmtree(ctx.scratch, ignore_errors=True)
